@@ -35,7 +35,8 @@ class _D(Domain):
         self.follow_exceptions = exc
 
     def resolve_call(self, st, call, walker):
-        return None
+        # private helpers extracted from the analysed code are followed
+        return walker.resolve_helper(st, call)
 
     def resolve_setter(self, st, target, walker):
         return None
@@ -59,9 +60,50 @@ def check_dt(program, rep):
         rep.inconclusive('C14.dt', site, f.node.name,
                          'SimpleLoop.loop is not a single while loop')
         return
-    lp = loops[0]
+    outer = loops[0]
+
+    def has_process(n):
+        return any(isinstance(c, ast.Call) and isinstance(
+            c.func, ast.Attribute) and c.func.attr == 'process'
+            for c in ast.walk(n))
+    # one frame = one iteration of the innermost `while` that (textually)
+    # contains the process call
+    lp = outer
+    changed = True
+    while changed:
+        changed = False
+        for n in ast.walk(lp):
+            if isinstance(n, ast.While) and n is not lp and has_process(n):
+                lp = n
+                changed = True
+                break
     w = Walker(program, _D(program, exc=True))
-    exits = w.run_block(f, lp.body, sl)
+    if lp is outer:
+        exits = w.run_block(f, lp.body, sl)
+    else:
+        # keep the enclosing try/except of the outer iteration: walk the
+        # outer body with the inner loop replaced by one run of its body
+        import copy
+
+        class R(ast.NodeTransformer):
+            def visit_While(self, n):
+                if n is lp_ref[0]:
+                    return n.body
+                return self.generic_visit(n)
+        lp_ref = [lp]
+        body = copy.deepcopy(outer.body)
+        # find the copied inner loop by position
+        for n in [x for st_ in body for x in ast.walk(st_)]:
+            if isinstance(n, ast.While) and n.lineno == lp.lineno \
+                    and n.col_offset == lp.col_offset:
+                lp_ref[0] = n
+        body = [R().visit(st_) for st_ in body]
+        flat = []
+        for b in body:
+            flat.extend(b if isinstance(b, list) else [b])
+        for b in flat:
+            ast.fix_missing_locations(b)
+        exits = w.run_block(f, flat, sl)
     rep.count('paths', len(exits))
     bad = {}
     n_proc = 0
@@ -141,7 +183,8 @@ def check_dt(program, rep):
                'previous; previous := reading before process; '
                'current_world.process(dt) once', line=lp.lineno)
     # the loop itself: while True, only SwitchWorld handled inside
-    rep.check(isinstance(lp.test, ast.Constant) and lp.test.value is True,
+    rep.check(all(isinstance(x.test, ast.Constant) and x.test.value is True
+                  for x in (lp, outer)),
               'C14.dt', site, lp.test, 'the loop runs until an exception '
               'ends it', 'SimpleLoop.loop is not `while True`', line=lp.lineno)
 
